@@ -11,7 +11,6 @@ import (
 	"regexp"
 	"strconv"
 	"strings"
-	"sync"
 	"testing"
 	"time"
 
@@ -381,7 +380,7 @@ func vfFateCheck(c vfFateCase) error {
 	ch := make(chan runResult, 1)
 	go func() {
 		ok, err := Run(&Flags{ConfigFile: cfgFile, TestFiles: []string{suiteFile}, KnownFailingPatterns: failing, KnownFlakyPatterns: flaky,
-			ClientCommand: vfPeerCommand("script-client", scriptFile, logFile), MaxServers: 1, Parallelism: 1}, logP, errP)
+			ClientCommand: vfPeerCommand("script-client", scriptFile, logFile), MaxServers: 1, Parallelism: 1, ServerBind: "127.0.0.1"}, logP, errP)
 		ch <- runResult{ok, err}
 	}()
 	var rr runResult
@@ -441,31 +440,6 @@ func vfFateCheck(c vfFateCase) error {
 			rr.ok, rr.err, wantOK, strings.Join(why, "; "), c, len(received), len(c.Tests), logP.String(), errP.String())
 	}
 	return nil
-}
-
-type vfSyncPrinter struct {
-	mu    sync.Mutex
-	lines []string
-}
-
-func (p *vfSyncPrinter) Printf(msg string, args ...any) {
-	p.mu.Lock()
-	defer p.mu.Unlock()
-	p.lines = append(p.lines, fmt.Sprintf(msg, args...))
-}
-func (p *vfSyncPrinter) PrefixPrintf(prefix, msg string, args ...any) {
-	p.mu.Lock()
-	defer p.mu.Unlock()
-	p.lines = append(p.lines, prefix+": "+fmt.Sprintf(msg, args...))
-}
-func (p *vfSyncPrinter) String() string {
-	p.mu.Lock()
-	defer p.mu.Unlock()
-	s := strings.Join(p.lines, "\n")
-	if len(s) > 3000 {
-		s = s[:3000] + "…"
-	}
-	return s
 }
 
 func TestVerifC04Fate(t *testing.T) {
